@@ -21,12 +21,12 @@ import (
 
 // DEvent is a document event handed to the simulated consumer.
 type DEvent struct {
-	id    string
-	vb    int
-	seq   uint64
-	ctx   *models.ListenerContext
-	acks  int
-	sess  int
+	id   string
+	vb   int
+	seq  uint64
+	ctx  *models.ListenerContext
+	acks int
+	sess int
 }
 
 // Member is one go-dcp client instance (real code) plus its simulated consumer.
@@ -47,17 +47,17 @@ type Member struct {
 	crashed bool
 	sess    int
 
-	events   []*DEvent
-	unacked  map[int][]*DEvent // per vb, delivery order, not yet acked
-	lastAck  map[int]*DEvent
-	parkCh   chan struct{}
-	parked   *DEvent
-	parkNext bool
-	nEvents  int
-	calls    int
-	mode     string
-	app      *fiber.App
-	scraping bool
+	events      []*DEvent
+	unacked     map[int][]*DEvent // per vb, delivery order, not yet acked
+	lastAck     map[int]*DEvent
+	parkCh      chan struct{}
+	parked      *DEvent
+	parkNext    bool
+	nEvents     int
+	calls       int
+	mode        string
+	app         *fiber.App
+	scraping    bool
 	lateScrapes int
 }
 
@@ -168,7 +168,8 @@ func (m *Member) ack(ev *DEvent) {
 		m.lastAck[ev.vb] = ev
 	}
 	w.mu.Unlock()
-	w.jl(&journal.Ev{K: journal.KAck, M: m.id, Vb: ev.vb, Seq: ev.seq, ID: ev.id, I: int64(ev.sess), B: ev.sess != m.sess})
+	_, _, _, _, offNow, _, _ := eventFields(ev.ctx.Event) // the offset the held event carries now
+	w.jl(&journal.Ev{K: journal.KAck, M: m.id, Vb: ev.vb, Seq: ev.seq, ID: ev.id, I: int64(ev.sess), B: ev.sess != m.sess, Off: jOff(offNow)})
 	ev.ctx.Ack()
 	w.jl(&journal.Ev{K: journal.KAckEnd, M: m.id, Vb: ev.vb, Seq: ev.seq, ID: ev.id})
 }
